@@ -555,6 +555,11 @@ type FamTemplate struct {
 	HasRepl bool
 	Untrans []string
 	Missing bool
+	// Post: the family's postcondition as a predicate of an observed result value `fpres` (entry state), used to decide
+	// whether an output observed on the real code violates the contract. Facts: assumptions at entry (guard, requires).
+	Post     Term
+	Facts    []Term
+	ResSort  string
 }
 
 func (t *FamTemplate) defText() string {
@@ -563,6 +568,16 @@ func (t *FamTemplate) defText() string {
 		ps = append(ps, "("+p.S+" "+smtSort(p.Sort)+")")
 	}
 	return "(define-fun " + t.Name + " (" + strings.Join(ps, " ") + ") Bool " + t.Body.S + ")\n"
+}
+
+// postText: (define-fun <name>_post (params..., fpres) Bool post)
+func (t *FamTemplate) postText() string {
+	var ps []string
+	for _, p := range t.Params {
+		ps = append(ps, "("+p.S+" "+smtSort(p.Sort)+")")
+	}
+	ps = append(ps, "(fpres "+smtSort(t.ResSort)+")")
+	return "(define-fun " + t.Name + "_post (" + strings.Join(ps, " ") + ") Bool " + t.Post.S + ")\n"
 }
 
 func (u *Universe) familyTemplate(fi *FuncInfo, fam *FamilySpec, st *SpecTables) (*FamTemplate, error) {
@@ -612,6 +627,41 @@ func (u *Universe) familyTemplate(fi *FuncInfo, fam *FamilySpec, st *SpecTables)
 	}
 	if p.Dead {
 		return nil, fmt.Errorf("%s family %s: guard and precondition are contradictory", fi.Key, fam.Name)
+	}
+	// postcondition as a predicate of an observed result (for replay)
+	{
+		p0 := p.clone()
+		t.Facts = append([]Term(nil), p0.Conds...)
+		env2 := &SpecEnv{C: c, P: p0, Old: map[string]Term{}, Vars: map[string]SV{}, Alias: env.Alias}
+		for k, v := range env.Vars {
+			env2.Vars[k] = v
+		}
+		if fi.Sig.Results().Len() == 1 {
+			rt := fi.Sig.Results().At(0).Type()
+			t.ResSort = u.sortOfType(rt)
+			rv := SV{T: Term{S: "fpres", Sort: t.ResSort}, GoT: rt}
+			var conj []Term
+			if fam.StopSpec != nil {
+				env2.Vars["cutval"] = rv
+				g := env2.evalBool(fam.StopSpec)
+				if env2.Err == nil {
+					conj = append(conj, g)
+				}
+			} else {
+				env2.Vars["result"] = rv
+				env2.Vars["res0"] = rv
+				for _, en := range fi.Contract.Ensures {
+					if hasLabel(en.Labels, labels) {
+						g := env2.evalBool(en.Expr)
+						if env2.Err == nil {
+							conj = append(conj, g)
+						}
+						env2.Err = nil
+					}
+				}
+			}
+			t.Post = tAnd(conj...)
+		}
 	}
 	u.runFunc(c, p, fr, env, runMode{labels: labels, fam: fam, noFrame: true, noSafety: true})
 	if fam.ReplCallee != "" && !c.CutSeen["replace"] {
